@@ -69,7 +69,7 @@ theorem sobs_senderPlain (i : Nat) (s : S) : EmitsP SenderObs s.a (senderPlain i
 /-! ## oversleeping: what the monitor knows when `fibre_scheduler_next` returns -/
 
 def PassCont : Cont → Prop
-  | .pass1 | .pass2 _ => True
+  | .pass1 | .pass2 _ | .brun _ | .bkill _ => True
   | _ => False
 
 /-- control locations inside `fibre_scheduler_next` after its entry -/
@@ -99,6 +99,16 @@ theorem yn_returned (s : S) (r : Ret) : PassPc (returned s r).mpc → (returned 
   · exact fun h => False.elim h
   · exact fun _ => rfl
 
+theorem yn_bodyStep (s : S) (h : s.a.yieldedNow = false) : PassPc (bodyStep s).mpc → (bodyStep s).a.yieldedNow = false := by
+  unfold bodyStep
+  split
+  · exact yn_returned _ _
+  · exact fun _ => h
+  · exact fun _ => h
+
+theorem yieldedNow_killed (a : A) (f : Fid) : (a.step (.killed f)).yieldedNow = a.yieldedNow := by
+  simp only [A.step]; split <;> rfl
+
 theorem yn_bodyOf (s : S) (c : Fid) (h : s.a.yieldedNow = false) : PassPc (bodyOf s c).mpc → (bodyOf s c).a.yieldedNow = false := by
   unfold bodyOf
   split
@@ -106,6 +116,7 @@ theorem yn_bodyOf (s : S) (c : Fid) (h : s.a.yieldedNow = false) : PassPc (bodyO
   · split <;> exact yn_returned _ _
   · split <;> exact yn_returned _ _
   · exact yn_returned _ _
+  · exact yn_bodyStep _ h
 
 theorem yn_dispatch (s : S) (h : s.a.yieldedNow = false) : PassPc (dispatch s).mpc → (dispatch s).a.yieldedNow = false := by
   unfold dispatch
@@ -132,6 +143,8 @@ theorem yn_afterDrain (s : S) (c : Cont) (h : PassCont c → s.a.yieldedNow = fa
       · exact yn_afterUpdate _ h'
       · exact yn_afterUpdate s h'
   | pass2 c => exact yn_afterUpdate _ (h trivial)
+  | brun g => exact yn_bodyStep (brunPre s g) (h trivial)
+  | bkill g => exact yn_bodyStep (bkillPre s g) ((yieldedNow_killed s.a g).trans (h trivial))
 
 theorem monO_mainAtomic {s : S} (hr : Reach s) (hq : Quiet s) (h : MonO s) : MonO (mainAtomic s) := by
   unfold mainAtomic
@@ -214,6 +227,7 @@ theorem reachR_monO {n : Nat} {s : S} (hr : ReachR n s) : MonO s := by
   | nops k _ ih => exact ⟨ih.yn, ih.snapw⟩
   | newItem _ ih => exact ⟨ih.yn, ih.snapw⟩
   | noYields _ ih => exact ⟨ih.yn, ih.snapw⟩
+  | setBody b r hb _ ih => exact ⟨ih.yn, ih.snapw⟩
 
 /-! ## events whose send returned true keep the handler owed a dispatch -/
 
@@ -404,6 +418,16 @@ theorem wrel_returned {s0 s : S} (h : WRel s0 s) (r : Ret) : WRel s0 (returned s
   · exact wrel_finishPass (by exact ⟨h.mg, h.hd, h.ipc, h.kind, h.hdl⟩) _
   · exact ⟨h.mg, h.hd, h.ipc, h.kind, h.hdl⟩
 
+theorem wrel_bodyStep {s0 s : S} (h : WRel s0 s) : WRel s0 (bodyStep s) := by
+  unfold bodyStep
+  split
+  · exact wrel_returned h _
+  · exact ⟨h.mg, h.hd, h.ipc, h.kind, h.hdl⟩
+  · exact ⟨h.mg, h.hd, h.ipc, h.kind, h.hdl⟩
+
+theorem handler_killed (a : A) (f : Fid) : (a.step (.killed f)).handler = a.handler := by
+  simp only [A.step]; split <;> rfl
+
 theorem wrel_bodyOf {s0 s : S} (h : WRel s0 s) (c : Fid) : WRel s0 (bodyOf s c) := by
   unfold bodyOf
   split
@@ -415,6 +439,7 @@ theorem wrel_bodyOf {s0 s : S} (h : WRel s0 s) (c : Fid) : WRel s0 (bodyOf s c) 
     · exact wrel_returned (by exact ⟨h.mg, h.hd, h.ipc, h.kind, h.hdl⟩) _
     · exact wrel_returned (by exact ⟨h.mg, h.hd, h.ipc, h.kind, h.hdl⟩) _
   · exact wrel_returned h _
+  · exact wrel_bodyStep h
 
 theorem wframe_body {s0 s : S} (h : WRel s0 s) (c : Fid) : WFrame s0 (body s c) := by
   unfold body
@@ -464,6 +489,27 @@ theorem wframe_afterDrain {s0 s : S} (h : WRel s0 s) (c : Cont) : WFrame s0 (aft
       · exact wframe_afterUpdate (by exact ⟨h.mg, h.hd, h.ipc, h.kind, h.hdl⟩)
       · exact wframe_afterUpdate h
   | pass2 c => exact wframe_afterUpdate (by exact ⟨h.mg, h.hd, h.ipc, h.kind, h.hdl⟩)
+  | brun g => exact wframe_of_rel (wrel_bodyStep (by exact ⟨h.mg, h.hd, h.ipc, h.kind, h.hdl⟩))
+  | bkill f =>
+    show WFrame s0 (bodyStep (bkillPre s f))
+    have hk : (bkillPre s f).kind HANDLER = .handler := h.kind
+    have hh : (bkillPre s f).a.handler = HANDLER := (handler_killed s.a f).trans h.hdl
+    have hi : (bkillPre s f).ipc = s0.ipc := h.ipc
+    have ha : (bkillPre s f).a = s.a.step (.killed f) := rfl
+    by_cases hf : f = HANDLER
+    · subst hf
+      have e : (s.a.step (.killed HANDLER)).mustGet = [] := by simp only [A.step, h.hdl, if_true]
+      have hb := wrel_bodyStep (s0 := bkillPre s HANDLER) (s := bkillPre s HANDLER) ⟨fun _ hs => hs, fun hh => hh, rfl, hk, hh⟩
+      have hnil : ∀ st, st ∉ (bodyStep (bkillPre s HANDLER)).a.mustGet := by
+        intro st hs
+        have hs' := hb.mg st hs
+        rw [ha, e] at hs'; cases hs'
+      exact ⟨fun st hs => absurd hs (hnil st), fun _ => Or.inr (Or.inr (List.eq_nil_iff_forall_not_mem.mpr hnil)), hb.ipc.trans hi⟩
+    · refine wframe_of_rel (wrel_bodyStep ⟨fun st hs => h.mg st ?_, fun hh' => ?_, hi, hk, hh⟩)
+      · rw [ha] at hs
+        simp only [A.step, h.hdl, hf, if_false] at hs
+        exact hs
+      · rw [ha]; exact (mem_owed_killed s.a f HANDLER).mpr ⟨h.hd hh', Ne.symm hf⟩
 
 theorem WRel.refl (s : S) (hk : s.kind HANDLER = .handler) (hh : s.a.handler = HANDLER) : WRel s s :=
   ⟨fun _ h => h, fun h => h, rfl, hk, hh⟩
@@ -620,5 +666,6 @@ theorem reachR_monW {n : Nat} {s : S} (hr : ReachR n s) : MonW s := by
   | nops k _ ih => exact ⟨ih.mm, ih.so⟩
   | newItem _ ih => exact ⟨ih.mm, ih.so⟩
   | noYields _ ih => exact ⟨ih.mm, ih.so⟩
+  | setBody b r hb _ ih => exact ⟨ih.mm, ih.so⟩
 
 end Librfn.Isr.L
